@@ -632,6 +632,11 @@ pub fn write(spec: &FileSpec, ch: &mut Chooser) -> (Vec<u8>, Layout) {
                 groups.push(vec![]);
             }
         }
+        // MALFORMED-but-loadable option (class "os.length", default off): every object stream of the section
+        // gets an indirect /Length whose integer lives in one further object stream written last (7.5.7
+        // forbids this; readers that tolerate it resolve such containers late)
+        let late_lengths = !groups.is_empty() && w.ch.choose("os.length", 2) == 1;
+        let mut container_lengths: Vec<(u32, i64)> = vec![];
         for (gi, group) in groups.iter().enumerate() {
             let cid = next_id;
             next_id += 1;
@@ -695,7 +700,15 @@ pub fn write(spec: &FileSpec, ch: &mut Chooser) -> (Vec<u8>, Layout) {
             for (k, v) in extra {
                 d.set(k, v);
             }
-            d.set("Length", Object::Integer(data.len() as i64));
+            if late_lengths {
+                let lid = next_id;
+                next_id += 1;
+                lay.structural.insert(lid);
+                container_lengths.push((lid, data.len() as i64));
+                d.set("Length", Object::Reference((lid, 0)));
+            } else {
+                d.set("Length", Object::Integer(data.len() as i64));
+            }
             entries.insert(cid, XEntry::InUse { offset: w.out.len(), gen: 0 });
             w.put(format!("{} 0 obj\n", cid).as_bytes());
             let mut plain_chooser = Chooser::new();
@@ -711,6 +724,25 @@ pub fn write(spec: &FileSpec, ch: &mut Chooser) -> (Vec<u8>, Layout) {
                 }
                 entries.insert(*num, XEntry::Compressed { container: cid, index: i });
                 compressed_map.insert(*num, cid);
+            }
+        }
+        if !container_lengths.is_empty() {
+            // the container that holds the other containers' lengths (direct Length, no filter)
+            let cid = next_id;
+            next_id += 1;
+            lay.structural.insert(cid);
+            let mut index = String::new();
+            let mut body = String::new();
+            for (lid, len) in &container_lengths {
+                index.push_str(&format!("{} {} ", lid, body.len()));
+                body.push_str(&format!("{} ", len));
+            }
+            let data = format!("{}{}", index, body);
+            entries.insert(cid, XEntry::InUse { offset: w.out.len(), gen: 0 });
+            w.put(format!("{} 0 obj\n<</Type /ObjStm/N {}/First {}/Length {}>>\nstream\n{}\nendstream\nendobj\n", cid, container_lengths.len(), index.len(), data.len(), data).as_bytes());
+            for (i, (lid, _)) in container_lengths.iter().enumerate() {
+                entries.insert(*lid, XEntry::Compressed { container: cid, index: i });
+                compressed_map.insert(*lid, cid);
             }
         }
         lay.compressed.push(compressed_map);
